@@ -23,4 +23,20 @@ example : binop exEnv true .sub (.ndarr [10, 20]) (.array exQ .list [1, 2]) = .o
 
 example : binop exEnv true .div (.array exQ .nd [1, 2]) (.num false 0) = .error .other := by decide +kernel
 
+/-! the legacy operator called directly; an Array whose `values` is a bare number -/
+
+example : arrayRDiv exEnv (.array exQ .tuple [2, 4]) (.num false 1)
+    = .ok (.array [⟨101, 12, -1⟩, ⟨103, 21, 2⟩] .tuple [1 / 2, 1 / 4]) := by decide +kernel
+
+example : arrayRDiv exEnv (.array exQ .list [2, 4]) (.scalar exQ 1) = .error .other := by decide +kernel
+
+example : binop exEnv true .mul (.array0 exQ 3) (.num false 2) = .ok (.array exQ .list [6]) := by decide +kernel
+
+example : binop exEnv true .floordiv (.num true 7) (.array0 exQ 2)
+    = .ok (.array [⟨101, 12, -1⟩, ⟨103, 21, 2⟩] .list [3]) := by decide +kernel
+
+example : binop exEnv true .sum (.ndarr [1, 2]) (.array0 exQ 3) = .ok (.array exQ .nd [4, 5]) := by decide +kernel
+
+example : binop exEnv true .sum (.array0 exQ 3) (.array exQ .list [1]) = .error .type := by decide +kernel
+
 end Barril.Ops
